@@ -152,7 +152,13 @@ def token_trace(text):
     return out
 
 
-def validate_tokens(ctx, recs):
+def validate_tokens(ctx, recs, batch=40000):
+    # one TLC run per batch: JsonDeserialize of a very large trace file dominates otherwise
+    for a in range(0, len(recs), batch):
+        _validate_tokens(ctx, recs[a:a + batch])
+
+
+def _validate_tokens(ctx, recs):
     import json
     import os
     traces, info = [], {}
@@ -188,14 +194,14 @@ def validate_tokens(ctx, recs):
         elif v["v"] != "ok":
             ctx.violation({"kind": r["kind"], "ctxt": r["ctxt"], "what": "token-stream-" + v["v"]},
                           {"text": s, "at": v["at"], "tokens": [t[0] for t in toks], "case": r})
-    ctx.notes["token_traces_validated"] = len(traces)
+    ctx.notes["token_traces_validated"] = ctx.notes.get("token_traces_validated", 0) + len(traces)
 
 
 def run(ctx):
     ctx.rule = ("spellings from structured descriptions per literal kind (boundary date/time fields, all 63 duration "
                 "component subsets x sign x case, integers, decimals/exponents, strings over an adversarial alphabet, "
                 "GUIDs, geography, booleans/null in all letter cases) and identifiers from sequences of <= N atoms "
-                "{x 1 _ . null true false any all not in eq and or Q}, each in 9 contexts; non-trivial = distinct "
+                "{x 1 _ . null true false any all not in eq and or Q}, each in 9 contexts (identifiers also as the root of 2-, 3-, 4-segment paths and as collection owners); non-trivial = distinct "
                 "(text) embedded in a non-trivial context")
     ctx.trusted = ["expected_py(): numeral->int, Fraction->float (correctly rounded), calendar constructors",
                    "spec/MC_C06.tla LitGen (cross-checked against spec/Lex.tla by invariant SpecReadsAsIntended)"]
@@ -209,7 +215,9 @@ def run(ctx):
     for r in res.records:
         check_case(ctx, r)
     # trace validation of the real token stream against Lex.tla (two contexts per spelling in the quick tier)
-    sel = [r for r in res.records if ctx.tier == "thorough" or r["ctxt"] in ("arith", "list2")]
+    # (thorough: every context for literals; identifiers - 10^5 spellings - in three contexts incl. a long path)
+    sel = [r for r in res.records if (ctx.tier == "thorough" and r["kind"] != "Id") or r["ctxt"] in ("arith", "list2")
+           or (ctx.tier == "thorough" and r["ctxt"] == "path3")]
     # arbitrary Unicode string contents (seeded): the harness only doubles the quotes; what the literal means is decided
     # by the spec's lexer when it reads the same text (Trace_Tokens), and the AST must carry exactly that content
     import random
